@@ -302,14 +302,15 @@ func run(c *core.Ctx) {
 		bound = 3
 	}
 	full := fullProfile(c.Tier == core.Thorough)
-	base := explore.Run(nil, func(x *explore.C) { gen(x, full, false) })
-	_ = base
-	visit := func(sub string, mk func(x *explore.C) Case) func(x *explore.C) bool {
+	// The body only GENERATES the case (cheap, deterministic); the visit callback executes it on the
+	// real code if this worker owns it.
+	var cs Case
+	visit := func(sub string) func(x *explore.C) bool {
 		return func(x *explore.C) bool {
 			if !c.Mine() {
 				return true
 			}
-			cs := mk(x)
+			cs := cs
 			den := cs.Doc.Denote()
 			key, msg, out := CheckRead(cs)
 			nt := uint64(0)
@@ -317,7 +318,9 @@ func run(c *core.Ctx) {
 				nt = core.Hash64("r", den, fmt.Sprintf("%+v", cs.Render))
 			}
 			cs.Dir = "read"
-			c.Record(sub+".read", out, nt, func() interface{} { return map[string]interface{}{"choices": x.Trace, "bytes": string(cs.Doc.Bytes(cs.Render))} })
+			c.Record(sub+".read", out, nt, func() interface{} {
+				return map[string]interface{}{"choices": x.Trace, "bytes": string(cs.Doc.Bytes(cs.Render))}
+			})
 			if key != "" {
 				c.Violate("read", key, msg, cs, explore.Deviations(x.Trace)*1000+len(cs.Doc.Bytes(cs.Render)))
 			}
@@ -334,15 +337,10 @@ func run(c *core.Ctx) {
 	}
 	// (1) core product: the full cartesian product of a tiny grammar
 	cp := coreProfile()
-	explore.Explore(-1, func(x *explore.C) { gen(x, cp, true) }, visit("core", func(x *explore.C) Case {
-		return gen(explore.Run(x.Trace, func(*explore.C) {}), cp, true)
-	}))
+	explore.Explore(-1, func(x *explore.C) { cs = gen(x, cp, true) }, visit("core"))
 	// (2) deviation ball around the baseline document over all model and rendering choice points
-	explore.Explore(bound, func(x *explore.C) { gen(x, full, false) }, visit("ball", func(x *explore.C) Case {
-		return gen(explore.Run(x.Trace, func(*explore.C) {}), full, false)
-	}))
-	c.Extra["deviation_bound"] = 0
-	c.ExtraMax["deviation_bound_max"] = float64(bound)
+	explore.Explore(bound, func(x *explore.C) { cs = gen(x, full, false) }, visit("ball"))
+	c.ExtraMax["deviation_bound"] = float64(bound)
 }
 
 func replay(sub string, raw json.RawMessage) (string, bool) {
